@@ -137,7 +137,7 @@ def decPrimVal : Sexp → Option PrimVal
   | .list [.atom "f32", b, t] => do pure (.f32 (← b.nat?) (← t.name?))
   | .list [.atom "f64", b, t] => do pure (.f64 (← b.nat?) (← t.name?))
   | .list [.atom "bool", b] => .bool <$> b.bool?
-  | .list [.atom "char", c] => .char <$> c.nat?
+  | .list [.atom "char", c] => (fun n => .char (Char.ofNat n)) <$> c.nat?
   | .list [.atom "ptr"] => some .ptr
   | .list [.atom "none"] => some .none
   | _ => none
@@ -467,7 +467,7 @@ def wPrimVal : PrimVal → String
   | .u8 n => s!"(u8 {n})" | .u16 n => s!"(u16 {n})" | .u32 n => s!"(u32 {n})" | .u64 n => s!"(u64 {n})"
   | .i8 n => s!"(i8 {n})" | .i16 n => s!"(i16 {n})" | .i32 n => s!"(i32 {n})" | .i64 n => s!"(i64 {n})"
   | .f32 b t => s!"(f32 {b} {wName t})" | .f64 b t => s!"(f64 {b} {wName t})"
-  | .bool b => s!"(bool {if b then 1 else 0})" | .char c => s!"(char {c})"
+  | .bool b => s!"(bool {if b then 1 else 0})" | .char c => s!"(char {c.toNat})"
   | .ptr => "(ptr)" | .none => "(none)"
 
 def wCVal : CVal → String
